@@ -204,16 +204,23 @@ async def contain_case(case):
 
 # ---------------------------------------------------------------------------------------------------------------
 def load_file_text(name, kind):
-    head = f'''
+    """a @service and a trigger BEFORE the statement that may fail, and another pair after it"""
+    def pair(tag):
+        return f'''
+@service
+def {tag}_svc_{name}():
+    event.fire("pv_ran", who="{name}", piece="{tag}_svc")
+
 @event_trigger("pv_ping")
-def ok_{name}(**kw):
-    event.fire("pv_ran", who="{name}")
+def {tag}_trig_{name}(**kw):
+    event.fire("pv_ran", who="{name}", piece="{tag}_trig")
 '''
     if kind == "ret":
-        return head
-    if kind == "syntax":
-        return head + "\ndef broken(:\n    pass\n"
-    return head + f'''
+        mid = "x = 1\n"
+    elif kind == "syntax":
+        mid = "def broken(:\n    pass\n"
+    else:
+        mid = f'''
 class PvErr(Exception):
     pass
 class PvBase(BaseException):
@@ -223,41 +230,95 @@ def pv_fail():
 x = 1
 pv_fail()
 '''
+    return pair("early") + mid + pair("late")
+
+
+PIECES = ["early_svc", "early_trig", "late_svc", "late_trig"]
+LAST_DETAIL = []
+CASE_NO = [0]
+
+
+async def observe_phase(env, files, n0):
+    """-> loaded (all pieces live), residue (any piece live), logs per file"""
+    from custom_components.pyscript.function import Function
+
+    hass = env.hass
+    e0 = len(env.events)
+    hass.bus.async_fire("pv_ping", {})
+    await env.settle()
+    registered = {}
+    for name, _kind in files:
+        for tag in ("early", "late"):
+            svc = f"{tag}_svc_{name}"
+            has = hass.services.has_service("pyscript", svc)
+            registered[(name, f"{tag}_svc")] = has or Function.service_cnt.get(f"pyscript.{svc}", 0) > 0
+            if has:
+                try:
+                    await hass.services.async_call("pyscript", svc, {}, blocking=True)
+                except BaseException:  # pylint: disable=broad-except
+                    pass
+    await env.settle()
+    ran = {(d.get("who"), d.get("piece")) for _v, t, d in env.events[e0:] if t == "pv_ran"}
+    loaded, residue, logs = [], [], []
+    detail = LAST_DETAIL
+    detail.clear()
+    for name, _kind in files:
+        live_all = all((name, pc) in ran for pc in PIECES) and all(registered[(name, pc)] for pc in ("early_svc", "late_svc"))
+        live_any = any((name, pc) in ran for pc in PIECES) or any(registered[(name, pc)] for pc in ("early_svc", "late_svc"))
+        loaded.append(live_all)
+        residue.append(live_any)
+        detail.append({pc: [(name, pc) in ran, registered.get((name, pc))] for pc in PIECES})
+        s, _o = count_records(env.log.records[n0:], "custom_components.pyscript.file." + name)
+        logs.append(s)
+    return loaded, residue, logs
 
 
 async def load_case(case):
     handler_calls = []
     loop = asyncio.get_running_loop()
     loop.set_exception_handler(lambda l, c: handler_calls.append(repr(c.get("exception"))))
-    files = {f"{name}.py": load_file_text(name, kind) for name, kind in case["files"]}
+    # names are made unique per case: pyscript objects of an earlier case that are garbage-collected late (EvalFuncVar.__del__
+    # -> trigger_stop -> service_remove) would otherwise remove the same-named service of the case now running
+    CASE_NO[0] += 1
+    phases = [[[f"{name}n{CASE_NO[0]}", kind] for name, kind in ph] for ph in case["phases"]]
+    files = {f"{name}.py": load_file_text(name, kind) for name, kind in phases[0]}
     env = PyscriptEnv(files=files, legacy=case["sub"] == "legacy", log_level=logging.ERROR)
-    escaped = None
-    res = {}
+    out = []
     try:
+        escaped = None
         try:
             await env.__aenter__()
         except BaseException as exc:  # pylint: disable=broad-except
             escaped = repr(exc)[:200]
-        loaded, logs = [], []
-        if escaped is None:
+        if escaped is not None:
+            out.append({"escaped": True, "escaped_exc": escaped, "loaded": [], "residue": [], "logs": []})
+            return {"phases": out}
+        await env.settle()
+        loaded, residue, logs = await observe_phase(env, phases[0], 0)
+        out.append({"escaped": False, "loaded": loaded, "residue": residue, "logs": logs, "detail": list(LAST_DETAIL)})
+        for k, ph in enumerate(phases[1:], 1):
+            n0 = len(env.log.records)
+            for name, kind in ph:
+                env.write(f"{name}.py", load_file_text(name, kind), mtime=2000000000 + 100 * k)
+            escaped = None
+            try:
+                await env.reload()
+            except BaseException as exc:  # pylint: disable=broad-except
+                escaped = repr(exc)[:200]
             await env.settle()
-            env.hass.bus.async_fire("pv_ping", {})
-            await env.settle()
-            who = {d.get("who") for _v, t, d in env.events if t == "pv_ran"}
-            for name, _kind in case["files"]:
-                loaded.append(name in who)
-        for name, _kind in case["files"]:
-            s, _o = count_records(env.log.records, "custom_components.pyscript.file." + name)
-            logs.append(s)
-        res = {"escaped": escaped is not None, "escaped_exc": escaped, "loaded": loaded, "logs": logs, "handler": list(handler_calls),
-               "others": [(n, m[-160:]) for n, l, m in env.log.records if l == "ERROR" and not n.startswith("custom_components.pyscript.file.")][:5]}
+            if escaped is not None:
+                out.append({"escaped": True, "escaped_exc": escaped, "loaded": [], "residue": [], "logs": []})
+                break
+            loaded, residue, logs = await observe_phase(env, ph, n0)
+            out.append({"escaped": False, "loaded": loaded, "residue": residue, "logs": logs, "detail": list(LAST_DETAIL)})
+        return {"phases": out, "handler": list(handler_calls),
+                "others": [(n, m[-160:]) for n, l, m in env.log.records if l == "ERROR" and not n.startswith("custom_components.pyscript.file.")][:6]}
     finally:
         if env.hass is not None:
             try:
                 await env.__aexit__(None, None, None)
             except BaseException:  # pylint: disable=broad-except
                 pass
-    return res
 
 
 async def warm_up():
@@ -281,6 +342,7 @@ def main():
                 out.append(run_virtual(load_case(case)))
         except BaseException as exc:  # pylint: disable=broad-except
             out.append({"error": repr(exc)[:400]})
+        gc.collect()  # finalise this case's pyscript objects now, not in the middle of the next case
     print("RESULT " + json.dumps(out))
 
 
